@@ -136,12 +136,23 @@ def taggedItem (d : List Char → Option (Bool × (Ctx → PM Gen))) (ctx : Ctx)
     | none => do setTokenpos checkpoint; pure none
   | _ => do setTokenpos checkpoint; pure none
 
-/-- `parse_ifdata_taggedstruct` -/
-def tsLoop (d : List Char → Option (Bool × (Ctx → PM Gen))) (ctx : Ctx) : Nat → List (TItem Gen) → PM (List (TItem Gen))
+/-- `tsspec.get(tag).is_some_and(|spec| spec.repeat)`: is the member defined as `("TAG" ...)*`? -/
+def repOf (items : List (Tagged Spec)) (tag : List Char) : Bool :=
+  match lookupTagged items tag with
+  | some t => t.rep
+  | none => false
+
+/-- `parse_ifdata_taggedstruct`; `acc` holds the items read so far (newest first), `rep` = `repOf` of the definition.
+    An item whose tag already occurred is an error unless the member may repeat (`InvalidMultiplicityTooMany`, raised
+    after the item has been read) -/
+def tsLoop (d : List Char → Option (Bool × (Ctx → PM Gen))) (rep : List Char → Bool) (ctx : Ctx) :
+    Nat → List (TItem Gen) → PM (List (TItem Gen))
   | 0, _ => outOfFuel
   | fuel + 1, acc => do
     match (← taggedItem d ctx) with
-    | some it => tsLoop d ctx fuel (it :: acc)
+    | some it =>
+      if acc.any (fun x => x.tag = it.tag) ∧ rep it.tag = false then fail .invalidMultiplicityTooMany
+      else tsLoop d rep ctx fuel (it :: acc)
     | none => pure acc.reverse
 
 mutual
@@ -183,7 +194,7 @@ def itemP (f32 : List Char → Option (List Char)) : Spec → Ctx → PM Gen
     pure (.seq vs)
   | .taggedStruct items, ctx => do
     let e ← getEnv
-    let vs ← tsLoop (dispatch f32 items) ctx (e.toks.size + 1) []
+    let vs ← tsLoop (dispatch f32 items) (repOf items) ctx (e.toks.size + 1) []
     pure (.taggedStruct vs)
   | .taggedUnion items, ctx => do
     match (← taggedItem (dispatch f32 items) ctx) with
